@@ -457,19 +457,40 @@ package util
 //@   ensures err != nil ==> n == nil
 
 // insertNode stamps the origin, stores the node under its hash and records the change. Every node
-// handed to it must be canonical (C02) and carry hex paths. Body: see C14.
+// handed to it must be canonical (C02) and carry hex paths. The body is checked for C04 / C14.
+// Frames: callers (C01 / C02) see the node heaps only; the collector, the transaction cache and the
+// store are separate objects those specifications never read. The body is checked against the
+// full frame (assigns + bodyassigns).
 //@ func (*MerklePatriciaTrie).insertNode returns (n, key, err)
 //@   trusted
+//@   props C04 C14
+//@   opt bodyfor C04 C14
+//@   mode wrap
 //@   holds mpt.mutex W
 //@   requires newNode != nil && Canon(newNode) && PathsWF(newNode)                          #canonical-node
+//@   requires CollectorWF(mpt)                                                              #collector-wf
 //@   assigns heap(OriginTracker.Origin), heap(OriginTracker.Version)
-//@   ensures err == nil ==> n == newNode && key != nil && len(key) == 32 && ((newNode is *FullNode) == KeyIsFull(key))
+//@   bodyassigns heap(NodeChange.New), mapof(CCof(mpt).Changes), mapof(CCof(mpt).Deletes), mapof(mpt.cache.cache), ghost(DBDel)
+//@   ensures err == nil ==> n == newNode && key != nil && len(key) == 32 && ((newNode is *FullNode) == KeyIsFull(key))          #assumed-hash-shape
+//@   ensures err == nil ==> str(key) == NodeHB(newNode, heapof(OriginTracker.Origin))                                                                       #returns-the-node-hash
+//@   ensures err == nil && oldNode == nil ==> NodeHash(newNode, heapof(OriginTracker.Origin)) in CCof(mpt).Changes
+//@      | && CCof(mpt).Changes[NodeHash(newNode, heapof(OriginTracker.Origin))].New == newNode                                                              #created-node-is-recorded
+//@   ensures err == nil && oldNode != nil && NodeHB(oldNode, heapof(OriginTracker.Origin)) != NodeHB(newNode, heapof(OriginTracker.Origin))
+//@      | ==> !(NodeHash(oldNode, heapof(OriginTracker.Origin)) in CCof(mpt).Changes)                                                                        #replaced-node-is-no-longer-pending
+//@   ensures CollectorWF(mpt)                                                                                                                                #collector-stays-wf
 //@ func (*MerklePatriciaTrie).deleteNode returns (err)
 //@   trusted
+//@   props C04 C05
+//@   opt bodyfor C04 C05
+//@   mode wrap
 //@   holds mpt.mutex W
 //@   requires node != nil
+//@   requires CollectorWF(mpt)                                                              #collector-wf
 //@   assigns nothing
-//@   ensures err != ErrValueNotPresent
+//@   bodyassigns mapof(CCof(mpt).Changes), mapof(CCof(mpt).Deletes), mapof(mpt.cache.cache), ghost(DBDel)
+//@   ensures err != ErrValueNotPresent                                                                                                                       #assumed-store-errors
+//@   ensures !(NodeHash(node, heapof(OriginTracker.Origin)) in CCof(mpt).Changes)                                                                           #deleted-node-is-not-saved
+//@   ensures !old(NodeHash(node, heapof(OriginTracker.Origin)) in CCof(mpt).Changes) ==> NodeHash(node, heapof(OriginTracker.Origin)) in CCof(mpt).Deletes  #stored-node-is-recorded-dead
 
 // Deep copies by encode/decode (value equality: C14). The copy is a new object with the same shape.
 //@ func (*FullNode).Clone returns (r)
@@ -657,18 +678,22 @@ package util
 //@   assigns nothing
 //@   ensures err != nil ==> n == nil
 //@ func (NodeDB).PutNode returns (err)
+//@   requires node != nil && str(key) == NodeHB(node, heapof(OriginTracker.Origin))        #stored-under-its-hash
 //@   assigns nothing
 //@ func (NodeDB).DeleteNode returns (err)
-//@   assigns nothing
+//@   assigns ghost(DBDel)
 //@ func (NodeDB).MultiPutNode returns (err)
+//@   requires KeyedByHash(keys, nodes)                                                      #batch-keyed-by-hash
 //@   assigns nothing
 //@ func (NodeDB).MultiDeleteNode returns (err)
-//@   assigns nothing
+//@   assigns ghost(DBDel)
 //@ func (NodeDB).Iterate returns (err)
 //@   assigns nothing
 //@ func (ChangeCollectorI).AddChange
+//@   opt devirt yes
 //@   assigns nothing
 //@ func (ChangeCollectorI).DeleteChange
+//@   opt devirt yes
 //@   assigns nothing
 //@ func (ChangeCollectorI).GetChanges returns (c)
 //@   assigns nothing
@@ -690,9 +715,10 @@ package util
 //@   assigns nothing
 //@ func (Node).GetHashBytes returns (b)
 //@   assigns nothing
+//@   ensures str(b) == NodeHB(self, heapof(OriginTracker.Origin))
 //@ func (Node).CloneNode returns (c)
 //@   assigns nothing
-//@   ensures c != nil
+//@   ensures c != nil && NodeHB(c, heapof(OriginTracker.Origin)) == NodeHB(self, heapof(OriginTracker.Origin)) && NodeHash(c, heapof(OriginTracker.Origin)) == NodeHash(self, heapof(OriginTracker.Origin))
 //@ func (Node).SetOrigin
 //@   assigns heap(OriginTracker.Origin), heap(OriginTracker.Version)
 //@ func (Node).GetOrigin returns (o)
@@ -719,9 +745,21 @@ package util
 //@   assigns nothing
 //@   ensures s == NodeHash(self, heapof(OriginTracker.Origin))
 
+// NodeHB: the same hash as raw bytes (GetHashBytes); GetHash is its hex form (A-hex: hex encoding is injective).
+//@ ufun NodeHB(n Iface, O (Array Int Int)) Str
+//@ axiom hex-is-injective: forall n Iface, m Iface, O (Array Int Int), P (Array Int Int) :: (NodeHash(n, O) == NodeHash(m, P)) == (NodeHB(n, O) == NodeHB(m, P))
+// A batch handed to a store pairs every node with its own hash (C14: nodes are addressed by content).
+//@ pred KeyedByHash(keys []Key, nodes []Node) = len(keys) == len(nodes) && (forall i :: 0 <= i && i < len(keys) ==> nodes[i] != nil && str(keys[i]) == NodeHB(nodes[i], heapof(OriginTracker.Origin)))
+// DBDel: abstract record of delete requests sent to stores.
+//@ ghostheap DBDel Int
+// The parts of a trie: store, transaction cache and collector (object invariant: established by NewChangeCollector / Clone, kept by AddChange / DeleteChange).
+//@ spec CCof(mpt *MerklePatriciaTrie) *ChangeCollector = mpt.ChangeCollector.(*ChangeCollector)
+//@ pred CollectorWF(mpt *MerklePatriciaTrie) = mpt.db != nil && mpt.cache != nil && TxnWF(mpt.cache) && mpt.ChangeCollector is *ChangeCollector && mpt.ChangeCollector.(*ChangeCollector) != nil && mpt.ChangeCollector.(*ChangeCollector).Changes != nil
+//@      | && mpt.ChangeCollector.(*ChangeCollector).Deletes != nil && ChangesWF(mpt.ChangeCollector.(*ChangeCollector))
+
 // Changes and Deletes never share a key (this is what Validate checks).
 //@ pred DisjCD(cc *ChangeCollector) = cc.Changes != nil && cc.Deletes != nil && (forall k string :: !(k in cc.Changes && k in cc.Deletes))
-//@ pred ChangesWF(cc *ChangeCollector) = forall k string :: k in cc.Changes ==> cc.Changes[k] != nil
+//@ pred ChangesWF(cc *ChangeCollector) = forall k string :: k in cc.Changes ==> cc.Changes[k] != nil && cc.Changes[k].New != nil
 
 //@ func (*ChangeCollector).AddChange
 //@   props C04 C05
@@ -739,6 +777,7 @@ package util
 //@      | && cc.Deletes[NodeHash(oldNode, heapof(OriginTracker.Origin))] == oldNode                                                                                     #replacement-registered-and-old-marked-dead
 //@   ensures oldNode != nil && old(NodeHash(oldNode, heapof(OriginTracker.Origin)) in cc.Changes) && NodeHash(oldNode, heapof(OriginTracker.Origin)) != NodeHash(newNode, heapof(OriginTracker.Origin))
 //@      | ==> !(NodeHash(oldNode, heapof(OriginTracker.Origin)) in cc.Changes)                                                                                            #intermediate-node-forgotten
+//@   ensures oldNode != nil && NodeHash(oldNode, heapof(OriginTracker.Origin)) != NodeHash(newNode, heapof(OriginTracker.Origin)) ==> !(NodeHash(oldNode, heapof(OriginTracker.Origin)) in cc.Changes)      #replaced-node-is-not-a-change
 //@   ensures ChangesWF(cc)
 //@   ensures old(DisjCD(cc)) && (oldNode == nil || NodeHash(oldNode, heapof(OriginTracker.Origin)) != NodeHash(newNode, heapof(OriginTracker.Origin))) ==> DisjCD(cc)      #changes-and-deletes-stay-disjoint
 
@@ -760,3 +799,14 @@ package util
 //@   requires cc.Changes != nil && cc.Deletes != nil
 //@   assigns nothing
 //@   ensures DisjCD(cc) ==> err == nil                                                                                                                                    #valid-collector-validates
+
+// UpdateChanges hands the store one batch: a copy of every collected node under that copy's own hash;
+// it sends delete requests only when asked to (the save mode that pairs with dead-node pruning never deletes).
+//@ func (*ChangeCollector).UpdateChanges returns (err)
+//@   props C04 C05 C14
+//@   mode wrap
+//@   requires ndb != nil && cc.Changes != nil && cc.Deletes != nil && ChangesWF(cc) && (forall k string :: k in cc.Deletes ==> cc.Deletes[k] != nil)
+//@   ensures !includeDeletes ==> DBDel == old(DBDel)                                                                                #no-store-delete-unless-asked
+//@   loop 1 invariant idx == iter1 && len(keys) == len(cc.Changes) && len(nodes) == len(cc.Changes) && len(keysStr) == len(cc.Changes) && fresh(keys) && fresh(nodes) && fresh(keysStr)
+//@   loop 1 invariant forall j :: 0 <= j && j < idx ==> nodes[j] != nil && str(keys[j]) == NodeHB(nodes[j], heapof(OriginTracker.Origin))
+//@   loop 2 invariant includeDeletes
